@@ -183,6 +183,52 @@ def build_model():
     sh("dune build ./vmodel.exe 2>&1", cwd=ob, env=env, check=True, timeout=1200)
 
 
+VPEG = os.path.join(BUILD, "ocaml_peg", "_build", "default", "vpeg.exe")
+PEG_TARGETS = ["Nom/Exec.vo", "Gen/GenGrammar.vo", "Gen/GenPrims.vo"]
+
+
+def build_peg():
+    """Extract the executable interpretation of the regenerated grammar (Nom/Exec.v) and build its driver."""
+    ob = os.path.join(BUILD, "ocaml_peg")
+    os.makedirs(ob, exist_ok=True)
+    ok, out = coq_make(PEG_TARGETS)
+    if not ok:
+        raise RuntimeError("coq build of the executable grammar failed:\n" + out[-6000:])
+    q = []
+    for d in ["Base", "PP", "Nom", "Tree", "API", "Props", "Gen"]:
+        q += ["-Q", os.path.join(COQ, d), "SV"]
+    for f in os.listdir(ob):
+        if f.endswith(".ml") or f.endswith(".mli"):
+            os.remove(os.path.join(ob, f))
+    sh(["coqc"] + q + ["-o", os.path.join(ob, "ExtractPeg.vo"), os.path.join(COQ, "Extract", "ExtractPeg.v")],
+       cwd=ob, check=True, timeout=1200)
+    for f in os.listdir(os.path.join(VERIF, "ocaml_peg")):
+        shutil.copy(os.path.join(VERIF, "ocaml_peg", f), os.path.join(ob, f))
+    env = dict(ENV, DUNE_CACHE="disabled")
+    sh("ulimit -s unlimited; dune build ./vpeg.exe 2>&1", cwd=ob, env=env, check=True, timeout=1800)
+
+
+def run_peg(cases, tag, timeout=600):
+    inp = os.path.join(BUILD, "cases", "%s.peg.in" % tag)
+    outp = os.path.join(BUILD, "cases", "%s.peg.model.out" % tag)
+    os.makedirs(os.path.dirname(inp), exist_ok=True)
+    write_cases(inp, cases)
+    if os.path.exists(outp):
+        os.remove(outp)
+    try:
+        rc, out = sh("ulimit -s unlimited; exec %s %s %s" % (VPEG, inp, outp), timeout=timeout)
+    except subprocess.TimeoutExpired:
+        rc, out = -9, "timeout"
+    if rc == 0 and os.path.exists(outp):
+        return parse_out(outp)
+    if len(cases) == 1:
+        return {cases[0].id: ["model-abort rc=%s %s" % (rc, out[-200:].replace("\n", " "))]}
+    mid = len(cases) // 2
+    r = run_peg(cases[:mid], tag + "a", timeout)
+    r.update(run_peg(cases[mid:], tag + "b", timeout))
+    return r
+
+
 def run_model(cmd, cases, tag, timeout=600):
     inp = os.path.join(BUILD, "cases", "%s.%s.in" % (tag, cmd))
     outp = os.path.join(BUILD, "cases", "%s.%s.model.out" % (tag, cmd))
